@@ -189,6 +189,9 @@ def run(ctx, rep):
     r11b(ctx, rep)
     tables.r11c(ctx, rep)
     r11e(ctx, rep)
+    from . import units
+    units.r15a(ctx, rep, rule="R11d", scope=("marwood::lex::", "marwood::parse::", "marwood::syntax::"))
+    rep.rules["R11d"] = "span units: " + rep.rules["R11d"]
     rep.not_decided += ["termination of every scanner loop (a path-insensitive consume-analysis flags scan_symbol / "
                         "scan_number, whose first iteration consumes by a start != end argument it cannot see)",
                         "strict ordering / non-emptiness of tokens", "exactly-one-datum-per-parse"]
